@@ -54,6 +54,8 @@ def iter_next(ex, st, r):
         if it.tag == 'rangeinc':
             return rangeinc_next(ex, st, r, it)
         raise Inconclusive('next() on native ' + it.tag)
+    if isinstance(it, A) and len(it.f) == 3 and all(isinstance(x, S) for x in it.f):
+        return rangeinc_next(ex, st, r, it)
     if isinstance(it, A) and len(it.f) == 2 and isinstance(it.f[1], E) and it.f[1].v in ('None', 'Some'):
         # Peekable { iter, peeked: Option<Option<Item>> }
         peeked = it.f[1]
@@ -89,7 +91,31 @@ def input_next(ex, st, r, it):
 
 
 def rangeinc_next(ex, st, r, it):
-    raise Inconclusive('RangeInclusive iteration is handled by the harness (cut point)')
+    """RangeInclusive<u32>::next: value A((start, end, exhausted)).
+    if exhausted || start > end: None; elif start < end: yield start, start += 1;
+    else: yield start, exhausted = true"""
+    start, end, exh = it.f
+    if not exh.conc():
+        raise Inconclusive('symbolic exhausted flag')
+    if exh.v:
+        return none()
+    lt = ex.binop(st, 'Lt', start, end)
+    eq = ex.binop(st, 'Eq', start, end)
+
+    def step(s2):
+        ex.assign_ref(s2, r, A((ex.binop(s2, 'Add', start, S(start.w, 1)), end, exh)))
+        return some(start)
+
+    def last(s2):
+        ex.assign_ref(s2, r, A((start, end, TRUE)))
+        return some(start)
+    if lt.conc() and eq.conc():
+        if lt.v:
+            return step(st)
+        if eq.v:
+            return last(st)
+        return none()
+    return Fork([(lt.v, step), (eq.v, last), (z3.And(z3.Not(zbool(lt.v)), z3.Not(zbool(eq.v))), lambda s2: none())])
 
 
 @summary(r'as (std::iter::)?Iterator>::next$', 'Iterator::next for Peekable<I>, vec::IntoIter, slice::Iter and the harness input iterator: yields the elements in order, then None')
@@ -399,6 +425,11 @@ def s_slice_last(ex, st, fr, text, args):
     if n == 0:
         return none()
     return some(Ref(r.fid, r.local, r.path + (('i', n - 1),)))
+
+
+@summary(r'^<(std::ops::)?RangeInclusive<.*> as IntoIterator>::into_iter$', 'RangeInclusive::into_iter: identity')
+def s_ri_into_iter(ex, st, fr, text, args):
+    return args[0]
 
 
 @summary(r'^<(std::vec::)?Vec<.*> as IntoIterator>::into_iter$', 'Vec::into_iter: by-value iterator over the elements in order')
